@@ -588,8 +588,9 @@ def check(run, prog, tier):
             if tgt is not None and tgt.get("k") == "Ref" and tgt.get("d") in ("global", "static"):
                 out.setdefault(tgt.get("n"), n.get("l"))
         return out
-    REGS = (set(gstores(rc_)) | set(gstores(pcs_))) - {"sp"}
-    run.need("command_giver" in REGS and len(REGS) >= 4, "registers written by restore_context()/pop_control_stack() (found %s)" % sorted(REGS))
+    # command_giver belongs to the set whether or not restore_context() still writes it (that is C05-b's question)
+    REGS = (set(gstores(rc_)) | set(gstores(pcs_)) | {"command_giver"}) - {"sp"}
+    run.need(len(REGS) >= 4, "registers written by restore_context()/pop_control_stack() (found %s)" % sorted(REGS))
     nl = 0
     installed = {}
     for f in sorted(prog.functions(), key=lambda x: (x.file, x.line)):
